@@ -204,6 +204,12 @@ def l2_backpressure(work, tier):
     write_ndjson(pin, [sc])
     work.run_harness(["l2", "-in", pin, "-out", pout], timeout=300)
     r = read_ndjson(pout)[0]
+    # the verdict needs a completed scenario: the sender's burst has gone out and every client has been answered a
+    # ping sent after it (the relays queued before that answer have then been handed to the client); under extreme
+    # machine load these waits can run out, which says nothing about the relays
+    late = [x for x in r.get("results", []) if x.get("op") in ("waitburst", "barrier") and x.get("ok") is False]
+    if late:
+        raise Inconclusive("wire-level back-pressure scenario did not complete in time (%d waits ran out; machine load?)" % len(late))
     fails = []
     for c in ("2", "3"):
         digs = [m["dig"] for m in r["clients"].get(c, []) if m["t"] == "CUSTOM_BROADCAST"]
